@@ -317,6 +317,11 @@ def binop(interp, op, a, b, st, node):
     if b.kind == "maybe":
         b = b.items[0] if b.items else V("unk", b.term, labels=b.labels, orig=b.orig)
     labels = a.labels | b.labels
+    if name == "matmul" and a.kind == "arr" and b.kind == "arr" and a.extra == "bool" and b.extra == "bool" and a.shape is not None and b.shape is not None and len(a.shape) == 1 and len(b.shape) == 2 and a.shape[0] == b.shape[0]:
+        # boolean product m @ G: entry j is the "or" over the flagged rows i of G[i, j]
+        rows = subscript(interp, b, a, st, node)
+        if rows.kind == "arr":
+            return call_external(interp, "numpy.any", [rows], {"axis": vconst(0)}, st, node)
     if name in ("add", "sub", "mul", "div", "pow", "mod", "floordiv") and (a.kind == "arr" or b.kind == "arr") and hasattr(interp, "vtab"):
         # elementwise operations commute with merging the two leading axes of an operand when the
         # other operand only broadcasts along the trailing axes (or is merged in the same way)
@@ -633,6 +638,9 @@ def _slice_len(d, sl):
             return Dim(x.const)
         if x.dim is not None:
             return x.dim
+        if x.kind == "int" and isinstance(x.extra, tuple) and len(x.extra) == 3 and x.extra[0] == "index" and isinstance(x.extra[1], Dim) and x.extra[1].is_const() and x.extra[1].c >= 0 and x.extra[2] == d and isinstance(x.term, Term) and x.term.op == "lv":
+            # a position of this very axis counted by a loop (0 <= x < d): a[x:] has d - x entries
+            return Dim(0, {("t", x.term): 1})
         return None
     if none(lo) and none(hi):
         return d
@@ -1013,6 +1021,11 @@ def iter_items(interp, it, st):
         inner = iter_items(interp, it.items[0], st)
         if inner is None:
             return None
+        if isinstance(it.extra, tuple) and it.extra and it.extra[0] == "start":
+            s_ = it.extra[1]
+            if not (s_.has_const and isinstance(s_.const, int)):
+                return None
+            return [interp.mk_tuple([vconst(s_.const + i), x]) for i, x in enumerate(inner)]
         return [interp.mk_tuple([vconst(i), x]) for i, x in enumerate(inner)]
     if it.kind == "zip":
         inners = [iter_items(interp, x, st) for x in it.items]
@@ -1053,6 +1066,26 @@ def loop_element(interp, it, lid, st):
         # itertools.count(start, step): start + step * (number of the iteration)
         i = V("int", T("lv", lid), shape=(), labels=labels)
         return binop(interp, "add", it.items[0], binop(interp, "mul", it.items[1], i, st, None), st, None)
+    if it.kind == "enumerate" and isinstance(it.extra, tuple) and it.extra and it.extra[0] == "start":
+        # enumerate(x, s): the counter runs over s .. s + len(x) - 1 and is the loop's own variable; the element is
+        # x[counter - s], which for a tail x = a[s:] is a[counter]
+        inner, start = it.items[0], it.extra[1]
+        n_ = length_dim(interp, inner)
+        s_dim = dim_of(start) if start.kind == "int" else None
+        i = V("int", T("lv", lid), shape=(), labels=labels | start.labels, extra=("index", s_dim, s_dim + n_) if (s_dim is not None and n_ is not None) else None)
+
+        def elem(z):
+            zt = z.term
+            if z.kind == "arr" and isinstance(zt, Term) and zt.op == "getitem" and isinstance(zt.args[1], Term) and zt.args[1].op == "slice" and len(zt.args[1].args) == 3 and zt.args[1].args[0] == start.term and all(isinstance(q, Term) and q.op == "const" and q.args[0] is None for q in zt.args[1].args[1:]) and hasattr(interp, "vtab"):
+                b_ = interp.vtab.get(zt.args[0])
+                if b_ is not None and b_.kind == "arr":
+                    return subscript(interp, b_, i, st, None)
+            k_ = binop(interp, "sub", i, start, st, None)
+            return subscript(interp, z, k_, st, None) if z.kind in ("arr", "list", "tuple") else V("unk", T("getitem", z.term, k_.term), labels=labels)
+
+        if inner.kind == "zip" and inner.items is not None:
+            return interp.mk_tuple([i, interp.mk_tuple([elem(z) for z in inner.items])])
+        return interp.mk_tuple([i, elem(inner)])
     if it.kind == "enumerate":
         inner = it.items[0]
         i = V("int", T("lv", lid), shape=(), labels=labels, extra=("index", Dim(0), length_dim(interp, inner) or Dim.unknown("len")))
